@@ -141,6 +141,36 @@ func exec(h H, rec *pbt.Rec) error {
 		}
 	}
 	rec.Count("held_proofs_reverified", int64(len(held)))
+	// several clients asking at once (no insertion in flight): every one gets a verifying answer
+	if n >= 2 {
+		const workers = 4
+		errs := make(chan error, workers)
+		rounds := 60
+		for w := 0; w < workers; w++ {
+			go func(w int) {
+				for k := 0; k < rounds; k++ {
+					vi := (k*workers + w*7) % n
+					e := ds[vi]
+					q := m.Hyper[e] + uint64(k)%(cur-m.Hyper[e]+1)
+					if err := b.CheckMembership(m, e, q, false); err != nil {
+						errs <- fmt.Errorf("asked while other membership queries run: %v", err)
+						return
+					}
+				}
+				errs <- nil
+			}(w)
+		}
+		var first error
+		for w := 0; w < workers; w++ {
+			if err := <-errs; err != nil && first == nil {
+				first = err
+			}
+		}
+		if first != nil {
+			return first
+		}
+		rec.Count("concurrent_pairs_verified", int64(workers*rounds))
+	}
 	if h.HTTP {
 		if err := viaHTTP(b, m, ds, cur, rec); err != nil {
 			return err
